@@ -202,7 +202,7 @@ def drive_mocks(_):
 
 WORDS = ["dataset", "learning rate", "number of steps", "whether to shuffle", "the path", "a list of names", "callable loss"]
 TYPES = ["int", "str", "float", "bool", "Optional[int]", "List[str]", "Union[int, str]", "np.ndarray", "Literal['a', 'b']",
-         "dict", "Callable[[int], str]"]
+         "dict", "Callable[[int], str]", "Tuple[float, float]", "Dict[str, int]"]
 NAMES = ["alpha", "beta", "n_steps", "*args", "**kwargs", "x1", "as_numpy", "K"]
 
 
@@ -212,6 +212,8 @@ def gen_docstring(rnd, style):
                                                                     ". Defaults to ```None```", ', defaults to "x"'])) for n in names]
     has_ret = rnd.random() < 0.6
     ret = (rnd.choice(TYPES), rnd.choice(WORDS))
+    # the Google / NumPy convention for a parameter that may be left out: `name (type, optional)` / `name : type, optional`
+    opt = lambda t: t + (", optional" if not t.startswith("Optional[") and rnd.random() < 0.35 else "")  # noqa: E731
     summary = rnd.choice(["Compute the thing.", "Compute the thing.\n\nA longer description\nover two lines.", ""])
     extra = rnd.choice(["", "Usage:\n    >>> f(1)\n    2", "Notes\n-----\nSome note.", "Raises:\n    ValueError: when bad",
                         ":raises ValueError: when bad", "Example::\n\n    f(1)"])
@@ -222,12 +224,12 @@ def gen_docstring(rnd, style):
         rs = ":return: {1}\n:rtype: ```{0}```".format(*ret) if has_ret else ""
         sec = [ps, rs]
     elif style == "google":
-        ps = ("Args:\n" + "\n".join("    {0} ({1}): {2}".format(n, t, d) if rnd.random() < 0.8 else "    {0}: {1}".format(n, d)
+        ps = ("Args:\n" + "\n".join("    {0} ({1}): {2}".format(n, opt(t), d) if rnd.random() < 0.8 else "    {0}: {1}".format(n, d)
                                     for n, t, d in params)) if params else ""
         rs = "Returns:\n    {0}: {1}".format(*ret) if has_ret else ""
         sec = [ps, rs]
     else:
-        ps = ("Parameters\n----------\n" + "\n".join("{0} : {1}\n    {2}".format(n, t, d) for n, t, d in params)) if params else ""
+        ps = ("Parameters\n----------\n" + "\n".join("{0} : {1}\n    {2}".format(n, opt(t), d) for n, t, d in params)) if params else ""
         rs = "Returns\n-------\n{0}\n    {1}".format(*ret) if has_ret else ""
         sec = [ps, rs]
     parts = [summary] + sec + [extra]
